@@ -722,6 +722,10 @@ def mkOp (x : CS) (toks : List String) : Prog OpOut :=
     match parseTy ty, off.toNat? with
     | some _, some _ => do let al ← load .alloc "allocated" 0; pure (.text s!"rdvrec {ty} {off} {al}")
     | _, _ => pure (.text "bad-op")
+  | ["checksum", which] =>
+    if which == "crc32" || which == "ordsum" then do
+      let al ← load .alloc "allocated" 0; pure (.text s!"cksrec {which} {al}")
+    else pure (.text "bad-op")
   | _ => pure (.text "bad-op")
 
 /-- apply the table effects of a completed operation and produce its `res` text -/
@@ -755,6 +759,11 @@ def finishOp (x : CS) (o : OpOut) : CS × String :=
         | .error .outOfBounds => (x, "r=OutOfBounds")
         | .error .varint => (x, "r=Varint")
       | none => (x, "bad-op")
+    | ["cksrec", which, al] =>
+      let c := x.sess.cfg
+      let data := checksumData (x.sh.st.image c) c.reserved al.toNat!
+      if which == "crc32" then (x, s!"r=ok val={crc32.chunked 4096 data} ref={crc32.chunked 4096 data}")
+      else (x, s!"r=ok val={ordSum.chunked 4096 data} ref={ordSum.chunked 4096 data}")
     | ["r=ok", "clonerec", a] => ({ x with sess := { x.sess with arenas := a.toNat! :: x.sess.arenas } }, "r=ok")
     | ["r=ok", "droparenarec", a] => ({ x with sess := { x.sess with arenas := x.sess.arenas.erase a.toNat! } }, "r=ok")
     | _ => (x, t)
